@@ -46,7 +46,12 @@ func (r refCfg) String() string {
 // identity of the reference peer in the role it plays against the library.
 func (r refCfg) identity() gmref.Identity {
 	p := tlsk.Get()
+	ecdhe := r.suite == gmref.SuiteECDHERSAGCM || r.suite == gmref.SuiteECDHEECDSAGCM
 	switch {
+	case ecdhe && r.libIsClient && r.suite == gmref.SuiteECDHEECDSAGCM:
+		return gmref.Identity{Certs: [][]byte{p.ECDSA.Certificate[0]}, TLSKey: p.ECDSAKey}
+	case ecdhe && r.libIsClient:
+		return gmref.Identity{Certs: [][]byte{p.RSA.Certificate[0]}, TLSKey: p.RSAKey}
 	case r.tls && r.libIsClient:
 		return gmref.Identity{Certs: [][]byte{p.RSA.Certificate[0]}, RSAKey: p.RSAKey}
 	case r.tls:
@@ -61,14 +66,17 @@ func (r refCfg) setup(q *gmref.Peer) {
 	if r.tls {
 		q.UseTLSVersion(r.version())
 	}
+	if r.suite == gmref.SuiteECDHERSAGCM || r.suite == gmref.SuiteECDHEECDSAGCM {
+		q.UseECDHE()
+	}
 	q.Suites = []uint16{r.suite}
 	q.RequestCert = r.auth
 }
 
 // streams are the conformant server-to-client message streams of the profile.
 func (r refCfg) serverStreams() [][]string {
-	if !r.tls {
-		return refdev.ServerStreams()
+	if !r.tls || r.suite == gmref.SuiteECDHERSAGCM || r.suite == gmref.SuiteECDHEECDSAGCM {
+		return refdev.ServerStreams() // with ServerKeyExchange
 	}
 	return [][]string{
 		{"ServerHello", "Certificate", "ServerHelloDone", "ChangeCipherSpec", "Finished"},
@@ -86,7 +94,11 @@ func (r refCfg) libConfig() *gmtls.Config {
 			}
 			return c
 		}
-		s := &gmtls.Config{Certificates: []gmtls.Certificate{p.RSA}, Time: tlsk.FixedTime, Rand: wire.NewRand(22), CipherSuites: []uint16{r.suite}, MinVersion: r.version(), MaxVersion: r.version()}
+		scert := p.RSA
+		if r.suite == gmref.SuiteECDHEECDSAGCM {
+			scert = p.ECDSA
+		}
+		s := &gmtls.Config{Certificates: []gmtls.Certificate{scert}, Time: tlsk.FixedTime, Rand: wire.NewRand(22), CipherSuites: []uint16{r.suite}, MinVersion: r.version(), MaxVersion: r.version()}
 		if r.auth {
 			s.ClientAuth, s.ClientCAs = gmtls.RequireAndVerifyClientCert, p.StdRootsG
 		}
@@ -562,6 +574,10 @@ func refUnits() []harness.Unit {
 				r := refCfg{lc, suite, auth, true, 0, false}
 				u = append(u, refSequenceUnit(r, 0), refSequenceUnit(r, 1), refMalformedUnit(r), refStraddleUnit(r))
 			}
+		}
+		for _, es := range []uint16{gmref.SuiteECDHERSAGCM, gmref.SuiteECDHEECDSAGCM} {
+			r := refCfg{lc, es, es == gmref.SuiteECDHERSAGCM, true, 0, false}
+			u = append(u, refSequenceUnit(r, 0), refSequenceUnit(r, 1), refStraddleUnit(r))
 		}
 		for _, v := range []uint16{0x0301, 0x0302} {
 			for _, auth := range []bool{false, true} {
